@@ -9,7 +9,7 @@ One run of `./check Cxx --tier T`:
      again inside Coq by vm_compute; compare
   5. verdict, replay file, evidence file
 """
-import fcntl, glob, hashlib, importlib, json, os, random, re, shutil, subprocess, sys, time
+import fcntl, glob, hashlib, importlib, json, os, random, re, shutil, subprocess, sys, threading, time
 
 HERE = os.path.dirname(os.path.abspath(__file__))
 ROOT = os.path.dirname(HERE)
@@ -61,6 +61,37 @@ class Lock(object):
     def __exit__(self, *a):
         fcntl.flock(self.f, fcntl.LOCK_UN)
         self.f.close()
+
+
+class CoqchkJob(threading.Thread):
+    """coqchk on a private copy of a .vo closure; at most CHK_SLOTS run at once machine-wide
+    (each takes ~4.5 GB; 8 GB for C11), whatever the number of checks started in parallel."""
+    CHK_SLOTS = 4
+
+    def __init__(self, prop, cwd):
+        threading.Thread.__init__(self, daemon=True)
+        self.prop, self.cwd, self.out, self.returncode = prop, cwd, '', None
+
+    def run(self):
+        slot = None
+        while slot is None:
+            for k in range(self.CHK_SLOTS):
+                f = open(os.path.join(ROOT, 'coq', '.chkslot%d' % k), 'w')
+                try:
+                    fcntl.flock(f, fcntl.LOCK_EX | fcntl.LOCK_NB)
+                    slot = f
+                    break
+                except OSError:
+                    f.close()
+            if slot is None:
+                time.sleep(3)
+        try:
+            p = subprocess.run(['timeout', '3000', 'coqchk', '-silent', '-o', '-Q', '.', 'BV', 'BV.Props.' + self.prop],
+                               cwd=self.cwd, stdout=subprocess.PIPE, stderr=subprocess.STDOUT, text=True)
+            self.out, self.returncode = p.stdout, p.returncode
+        finally:
+            fcntl.flock(slot, fcntl.LOCK_UN)
+            slot.close()
 
 
 # ----------------------------------------------------------------------------- build
@@ -424,8 +455,8 @@ def _check(prop, mod, tier, seed, replay, rundir, t0):
                 if os.path.exists(vo):
                     os.makedirs(os.path.dirname(os.path.join(chkdir, rel)), exist_ok=True)
                     shutil.copy2(vo, os.path.join(chkdir, rel[:-2] + '.vo'))
-            chk = subprocess.Popen(['timeout', '3000', 'coqchk', '-silent', '-o', '-Q', '.', 'BV', 'BV.Props.' + prop],
-                                   cwd=chkdir, stdout=subprocess.PIPE, stderr=subprocess.STDOUT, text=True)
+            chk = CoqchkJob(prop, chkdir)
+            chk.start()
     if g:
         broken.append('gate: forbidden vernacular: ' + '; '.join(g[:5]))
     for rel in lost:
@@ -527,7 +558,8 @@ def _check(prop, mod, tier, seed, replay, rundir, t0):
         broken.append('correspondence IMPL<->MODEL (%d cases differ; first: %s)' % (len(mism), mism[0][0][:200]))
     coqchk = None
     if chk is not None:
-        cout = chk.communicate()[0]
+        chk.join()
+        cout = chk.out
         m = re.search(r'\* Axioms:(.*?)\n\s*\n\* Constants/Inductives relying on type-in-type:(.*?)\n\s*\n\* Constants/Inductives relying on unsafe \(co\)fixpoints:(.*?)\n\s*\n\* Inductives whose positivity is assumed:(.*?)(?:\n\s*\n|$)', cout, flags=re.S)
         if chk.returncode == 124:
             coqchk = {'status': 'timeout (3000 s) - not a verdict'}
